@@ -1,6 +1,7 @@
 package main
 
 import (
+	"os"
 	"fmt"
 	"go/ast"
 	"go/token"
@@ -108,11 +109,19 @@ func (e *Enc) verifyFunction(fn *ssa.Function, con *Contract) {
 	}
 	for _, c := range con.Ensures {
 		n := len(e.obls)
-		e.oblige("post", name+"/post."+c.Label, e.evalBool(env, c), pos)
+		label := strings.TrimSuffix(c.Label, "!")
+		g := e.evalBool(env, c)
+		e.oblige("post", name+"/post."+label, g, pos)
 		if len(e.obls) > n {
 			e.obls[n].Env = env
 			e.obls[n].ClauseText = c.Text
 			e.obls[n].ClauseExpr = c.Expr
+			e.obls[n].NoFinding = strings.HasSuffix(c.Label, "!")
+		}
+		if strings.HasSuffix(c.Label, "!") {
+			// "label!": proved here, then available as a lemma to the clauses
+			// that follow (never combined with a known finding)
+			e.assume(g)
 		}
 	}
 	if !con.ModAll {
@@ -204,6 +213,9 @@ func (e *Enc) frameObligations(name string, con *Contract, env *Env, entry *Stat
 			for _, l := range leavesOf(ft) {
 				k := heapKey(p.Obj, joinLeaf(prefix, l.Name))
 				allowedRef[k] = append(allowedRef[k], p.Ref)
+				if os.Getenv("LSVC_DEBUG") != "" {
+					fmt.Fprintln(os.Stderr, "allowed", k, p.Ref.S)
+				}
 			}
 		}()
 	}
@@ -280,7 +292,7 @@ func (e *Enc) collectInputs(fn *ssa.Function, params []Val, entry *State) []Inpu
 		case Ifc:
 			out = append(out, InputVar{Name: name, Kind: "iface", Bits: 64, Expr: x.Id.S})
 		case Ptr:
-			if x.K == pHeap && depth < 2 {
+			if x.K == pHeap && depth < 1 {
 				if _, ok := x.Elem.Underlying().(*types.Struct); ok {
 					saved := e.cur
 					e.cur = entry
@@ -301,13 +313,14 @@ func (e *Enc) collectInputs(fn *ssa.Function, params []Val, entry *State) []Inpu
 
 // ------------------------------------------------------------------ query text
 
-const preludeSeq = `(declare-sort Seq 0)
-(declare-fun seqid ((Array (_ BitVec 64) (_ BitVec 8)) (_ BitVec 64) (_ BitVec 64)) Seq)
-(declare-fun lexle (Seq Seq) Bool)
-(assert (forall ((a Seq)) (lexle a a)))
-(assert (forall ((a Seq) (b Seq)) (=> (and (lexle a b) (lexle b a)) (= a b))))
-(assert (forall ((a Seq) (b Seq) (c Seq)) (=> (and (lexle a b) (lexle b c)) (lexle a c))))
-(assert (forall ((a Seq) (b Seq)) (or (lexle a b) (lexle b a))))
+const preludeSeq = `(declare-sort BSeq 0)
+(declare-fun seqid ((Array (_ BitVec 64) (_ BitVec 8)) (_ BitVec 64) (_ BitVec 64)) BSeq)
+`
+const preludeLex = `(declare-fun lexle (BSeq BSeq) Bool)
+(assert (forall ((a BSeq)) (lexle a a)))
+(assert (forall ((a BSeq) (b BSeq)) (=> (and (lexle a b) (lexle b a)) (= a b))))
+(assert (forall ((a BSeq) (b BSeq) (c BSeq)) (=> (and (lexle a b) (lexle b c)) (lexle a c))))
+(assert (forall ((a BSeq) (b BSeq)) (or (lexle a b) (lexle b a))))
 `
 
 const maxModelBytes = 40
@@ -320,6 +333,9 @@ func (e *Enc) query(o *Obligation, withModel bool) string {
 	if e.usesSeq {
 		b.WriteString(preludeSeq)
 	}
+	if e.usesLex {
+		b.WriteString(preludeLex)
+	}
 	for _, l := range e.decls {
 		b.WriteString(l)
 		b.WriteByte('\n')
@@ -329,29 +345,31 @@ func (e *Enc) query(o *Obligation, withModel bool) string {
 		b.WriteByte('\n')
 	}
 	if e.usesSeq {
-		// extensionality of seqid on the sequence terms of this query
-		var recs []seqTerm
+		// extensionality of seqid on the pairs of sequences compared so far
 		seen := map[string]bool{}
-		for _, r := range e.seqRecs {
-			if r.at > o.Upto {
+		emptyDone := map[string]bool{}
+		for _, p := range e.seqPairs {
+			if p.at > o.Upto {
 				continue
 			}
-			k := r.arr.S + "|" + r.s.Off.S + "|" + r.s.Len.S
-			if !seen[k] {
-				seen[k] = true
-				recs = append(recs, r)
+			ia, ic := seqID(p.a.arr, p.a.s), seqID(p.b.arr, p.b.s)
+			if ia != ic && !seen[ia+"|"+ic] {
+				seen[ia+"|"+ic] = true
+				a, c := p.a, p.b
+				b.WriteString(fmt.Sprintf("(assert (= (= %s %s) (and (= %s %s) (forall ((k!x (_ BitVec 64))) (! (=> (bvult k!x %s) (= (select %s (bvadd %s k!x)) (select %s (bvadd %s k!x)))) :pattern ((select %s (bvadd %s k!x))) :pattern ((select %s (bvadd %s k!x))))))))\n",
+					ia, ic, a.s.Len.S, c.s.Len.S, a.s.Len.S, a.arr.S, a.s.Off.S, c.arr.S, c.s.Off.S, a.arr.S, a.s.Off.S, c.arr.S, c.s.Off.S))
 			}
-		}
-		for i := 0; i < len(recs); i++ {
-			for j := i + 1; j < len(recs); j++ {
-				a, c := recs[i], recs[j]
-				b.WriteString(fmt.Sprintf("(assert (= (= (seqid %s %s %s) (seqid %s %s %s)) (and (= %s %s) (forall ((k!x (_ BitVec 64))) (=> (bvult k!x %s) (= (select %s (bvadd %s k!x)) (select %s (bvadd %s k!x))))))))\n",
-					a.arr.S, a.s.Off.S, a.s.Len.S, c.arr.S, c.s.Off.S, c.s.Len.S, a.s.Len.S, c.s.Len.S, a.s.Len.S, a.arr.S, a.s.Off.S, c.arr.S, c.s.Off.S))
+			// the empty sequence is least
+			for _, t := range []seqTerm{p.a, p.b} {
+				if !e.usesLex {
+					break
+				}
+				id := seqID(t.arr, t.s)
+				if !emptyDone[id] {
+					emptyDone[id] = true
+					b.WriteString(fmt.Sprintf("(assert (=> (= %s #x0000000000000000) (forall ((s!x BSeq)) (lexle %s s!x))))\n", t.s.Len.S, id))
+				}
 			}
-		}
-		// the empty sequence is least
-		for _, r := range recs {
-			b.WriteString(fmt.Sprintf("(assert (=> (= %s #x0000000000000000) (forall ((s!x Seq)) (lexle (seqid %s %s %s) s!x))))\n", r.s.Len.S, r.arr.S, r.s.Off.S, r.s.Len.S))
 		}
 	}
 	for _, l := range o.Extra {
